@@ -9,6 +9,7 @@ depth-first by re-executing the harness along the recorded decision prefix.
 
 Exploration is exhaustive or the run is inconclusive (Budget / Unsupported).
 """
+import fractions
 import time
 
 import z3
@@ -118,6 +119,7 @@ class Engine:
             self.r_apps = []      # applications of the rounding function R (real-float model)
             self.pw_apps = []     # applications of the pow stub
             self.path_tables = set()
+            self.bounds = {}
             self.r_copy = 0
             self.r_copy_index = {}
             self.r_copy_apps = {}
@@ -172,6 +174,83 @@ class Engine:
         consequence of a decision)."""
         self.pc.append(c)
         self.solver.add(c)
+        self._note_bounds(c)
+
+    # ---- cheap interval reasoning for atoms  var <op> numeral  (saves the solver calls of table-scan loops)
+    @staticmethod
+    def _atom(t):
+        """-> (var name, op, Fraction) with op in '<', '<=', '>', '>=' for an atom over one uninterpreted constant, else None"""
+        neg = False
+        while z3.is_not(t):
+            neg = not neg
+            t = t.arg(0)
+        k = t.decl().kind()
+        ops = {z3.Z3_OP_LT: '<', z3.Z3_OP_LE: '<=', z3.Z3_OP_GT: '>', z3.Z3_OP_GE: '>='}
+        if k not in ops or t.num_args() != 2:
+            return None
+        a, b = t.arg(0), t.arg(1)
+        op = ops[k]
+
+        def isvar(x):
+            return z3.is_const(x) and x.decl().kind() == z3.Z3_OP_UNINTERPRETED
+
+        def num(x):
+            if z3.is_int_value(x):
+                return fractions.Fraction(x.as_long())
+            if z3.is_rational_value(x):
+                return fractions.Fraction(x.numerator_as_long(), x.denominator_as_long())
+            return None
+        if isvar(a) and num(b) is not None:
+            v, c = a, num(b)
+        elif isvar(b) and num(a) is not None:
+            v, c = b, num(a)
+            op = {'<': '>', '<=': '>=', '>': '<', '>=': '<='}[op]
+        else:
+            return None
+        if neg:
+            op = {'<': '>=', '<=': '>', '>': '<=', '>=': '<'}[op]
+        return v.decl().name(), op, c
+
+    def _note_bounds(self, c):
+        if z3.is_and(c):
+            for ch in c.children():
+                self._note_bounds(ch)
+            return
+        at = self._atom(c)
+        if at is None:
+            return
+        name, op, val = at
+        lo, los, hi, his = self.bounds.get(name, (None, False, None, False))
+        if op in ('>', '>='):
+            strict = op == '>'
+            if lo is None or val > lo or (val == lo and strict and not los):
+                lo, los = val, strict
+        else:
+            strict = op == '<'
+            if hi is None or val < hi or (val == hi and strict and not his):
+                hi, his = val, strict
+        self.bounds[name] = (lo, los, hi, his)
+
+    def _interval_decide(self, t):
+        at = self._atom(t)
+        if at is None:
+            return None
+        name, op, val = at
+        b = self.bounds.get(name)
+        if b is None:
+            return None
+        lo, los, hi, his = b
+        if op in ('>', '>='):
+            if lo is not None and (lo > val or (lo == val and (los or op == '>='))):
+                return True
+            if hi is not None and (hi < val or (hi == val and (his or op == '>'))):
+                return False
+        else:
+            if hi is not None and (hi < val or (hi == val and (his or op == '<='))):
+                return True
+            if lo is not None and (lo > val or (lo == val and (los or op == '<'))):
+                return False
+        return None
 
     def assume(self, c):
         """Harness assumption.  Aborts the path if it contradicts the path so far."""
@@ -201,6 +280,12 @@ class Engine:
             self.decisions.append(d)
             self.add(t if d else z3.Not(t))
             return d
+        quick = self._interval_decide(t) if (self.check_feasibility and not trust_feasible) else None
+        if quick is not None:
+            # implied by the bounds already on the path: recorded as a decision (re-execution must index alike), no solver call
+            self.decisions.append(quick)
+            self.add(t if quick else z3.Not(t))
+            return quick
         if trust_feasible or not self.check_feasibility:
             can_t = can_f = True
         else:
